@@ -267,6 +267,12 @@ def _key_carries(conds, need):
             fp = fingerprint(ops_[0])
             if fp is not None and need <= byte_syms(fp, set()):
                 return True
+        # ... or the kept key was compared with the current one and found equal
+        if isinstance(u, VUnknown) and u.tag in ("cmp", "shape-eq") and ops_ is not None and c[2] is (not getattr(u, "negated", False)):
+            for o_ in ops_:
+                fp = fingerprint(o_)
+                if fp is not None and need <= byte_syms(fp, set()):
+                    return True
     return False
 
 
